@@ -8,7 +8,7 @@ CHECKS = {
    text='All 10 algorithms: every bit length 1..2B+cs+16 (quick: +-9 around every boundary), every byte length to 4 blocks, 5..129-block messages, longer containers, over-long bit lengths (must raise), the same calls on an object that already hashed another message, live objects whose chaining value and bit counter are preset so that the length field carries into every bit 11..2w, bit lengths ending inside the last byte of 1025-block (thorough: > 1 MiB) messages, and every algorithm after each of 23 other configurations was used first in a fresh process. Each result is compared with hashlib or a reference whose constants are derived, not copied.',
    note='Trusted: hashlib (OpenSSL) and mc/refs/mdsha.py (self-tested each run against hashlib on 2400 messages, RFC 1320, FIPS 180 (1993), NIST SHAVS bit vectors). Data outside the fixed patterns and lengths beyond the bounds are not covered.'),
  'C02': dict(sec='2/C02, 8', tech='complete component domains (engine D) + enumerated variable-key/text/tweak families, keying forms, interleaved live instances and undefined sizes (engines P/H) against independent reference ciphers bound to OpenSSL/NESSIE/Skein vectors',
-   text='All 65536 gmul pairs, every S-box cell and permutation-table entry of AES/DES/Serpent; for 9 cipher configurations the single-bit, repeated-byte, pattern, weak/semi-weak/parity key families, all 72 DES keys written over the weak-key byte alphabet, keys whose derived words take boundary values, block and tweak families; every Serpent key length and TDEA keying form; every ordered pair of configurations alive at the same time; AES states with two columns of the same unpadded spelling; Threefish blocks crafted so that the state after every subkey injection carries boundary words; 80 undefined key/tweak/block sizes (must raise).',
+   text='All 65536 gmul pairs, every S-box cell and permutation-table entry of AES/DES/Serpent; for 9 cipher configurations the single-bit, repeated-byte, pattern, weak/semi-weak/parity key families, all 72 DES keys written over the weak-key byte alphabet, keys whose derived words take boundary values, block and tweak families; every Serpent key length and TDEA keying form; every ordered pair of configurations alive at the same time; AES states with two columns of the same unpadded spelling; Threefish blocks crafted so that the state after every subkey injection carries boundary words; 116 undefined key/tweak/block sizes incl. bit counts taken for byte counts (must raise).',
    note='Trusted: mc/refs/blockciphers.py (validated against OpenSSL-generated blocks each run), serpent.py (NESSIE), skein.py (Skein 1.3 vectors). Families plus complete component domains, not all 2^|K| keys.'),
  'C03': dict(sec='2/C03, 8', tech='complete domains of every exposed inverse pair (engine D) + key/block/tweak families and interleaved live instances (engines P/H); purely differential oracle',
    text='dec(enc(B))==B and enc(dec(B))==B with exact length over the C02 families for 9 cipher configurations, also with a second live instance of another configuration, on every DES key written over the weak-key byte alphabet, on Threefish blocks crafted to reach boundary internal states after every subkey injection, and (thorough) after 9000 other keys in the same process; AES Sbox/ShiftRows/MixColumns, DES IP, Serpent S-boxes/IP/FP/L, rol/ror for every width<=10/12 x amount x value, Salsa/ChaCha index maps on their complete or stated domains.',
@@ -17,22 +17,22 @@ CHECKS = {
    text='All 7 widths, every rate 1..b-1 for b<=50 (thorough 200) plus named non-byte rates, both bit orders, every bit length 0..2r+2 or every boundary residue, 7 output lengths, longer containers, bitlen=0, second calls on used objects, 64 KiB+ messages with non-byte rates; SHA3/SHAKE on every byte length to 2 rate blocks and 5..65 blocks vs hashlib; all sequences of duplex calls, plain and per-call-rate sponge calls and attribute reconfigurations to depth 3 against a reference duplex object; setrate / per-call-rate / refused-call histories to depth 4 (5).',
    note='Trusted: hashlib SHA-3/SHAKE and mc/refs/keccak.py (derived round constants / rho offsets, bound to hashlib and a b=200 vector each run).'),
  'C05': dict(sec='2/C05, 8', tech='bounded exhaustive enumeration of mode x padding x cipher x length x IV/counter (engine P), crafted ciphertext-collision messages, and explicit-state BFS over counter reconfiguration histories (engine H) against SP 800-38A written over the same block function',
-   text='ECB/CBC under 5 paddings, CTR with byte/object counters at the wrap-around values, both CTS modes over a stub cipher of 8 block sizes (every length 0..4 blocks+1, up to 300 blocks, 3 data patterns incl. pad-colliding tails) and 9 real ciphers; messages built with cipher.dec so that a ciphertext block equals the IV / its predecessor / zero; all histories of counter.setup / enc / dec on one CTR object to depth 3; SP 800-38A F vectors.',
+   text='ECB/CBC under 5 paddings, CTR with byte/object counters at the wrap-around values, both CTS modes over a stub cipher of 8 block sizes (every length 0..4 blocks+1, up to 300 blocks, 3 data patterns incl. pad-colliding tails) and 9 real ciphers; messages built with cipher.dec so that a ciphertext block equals the IV / its predecessor / zero; all histories of counter.setup / enc / dec on one CTR object to depth 3, of ECB / CBC / CTR objects incl. IV reassignment and a transiently failing cipher stub; caller-supplied counter objects; SP 800-38A F vectors.',
    note='Trusted: sp800_* (10 lines) + mc/refs/padspec.py; the block function is the object under test (cipher correctness is C02). CTS: length + round trip only.'),
  'C06': dict(sec='2/C06, 8', tech='bounded exhaustive enumeration of cipher x key size x rounds x length, key/nonce families, the complete quarter-round on a boundary word alphabet (engines P/D), preset block counters via the guarded hook, explicit-state BFS over call histories: RC4 with (S,i,j) as state, Salsa20/ChaCha objects with caller-owned nonces, open generators, several related nonces and rejected requests (engine H)',
    text='Salsa20/ChaCha: both key sizes, every even round count, 16 lengths to 17 blocks (enc, length, dec, prefix property), single-bit key/nonce families, Salsa20 core on the 512-bit single-bit family, quarterround on all 10^4 word tuples of a boundary alphabet, keystream started around 2^32..2^64-2, one object under 4 nonces with related written forms on 18-block messages, one call on 65537 bytes (thorough 2 MiB + 100), nonces whose keystream block has two equal words (searched once, re-verified per run); RC4: every key length 1..256, every sequence of <=3 enc/keystream/dec calls (pieces up to 600 bytes, one key with a 64 KiB+ piece) vs reference stream and state.',
    note='Trusted: mc/refs/stream.py (spec examples, RFC 6229, OpenSSL ChaCha20/RC4 incl. a counter crossing 2^32). Hook BDCHT_CRYSP_VERIF (commit 942588d, add-only).'),
  'C07': dict(sec='2/C07, 8', tech='complete enumeration of all vectors up to width 13/16 and all byte strings up to 2 bytes (engine D), every byte length 1..40 x bit order x explicit size (engine P) against an integer model',
-   text='All constructors, conversions and round trips for every (size,value) to width 13 (thorough 16); every byte string of length <=2 and every byte length 1..40 under every documented bit order, with 12 explicit sizes, negative byte-group orders included (judged by the Bits.load docstring), each order again in reverse sequence of use; generalized unpack for every byte count 1..40 and 27 lengths to 65537 with a tail.',
+   text='All constructors, conversions and round trips for every (size,value) to width 13 (thorough 16); every byte string of length <=2 and every byte length 1..40 under every documented bit order, with 12 explicit sizes, negative byte-group orders included (judged by the Bits.load docstring), each order again in reverse sequence of use; big-endian pack at every size; generalized unpack for every byte count 1..40 and 27 lengths to 65537 with a tail.',
    note='Trusted: model_load (12 lines). Larger widths only on the boundary-value alphabet named by the property.'),
  'C08': dict(sec='2/C08, 8', tech='complete enumeration of all operand pairs / index expressions up to a width bound (engine D) + explicit-state BFS to the fixpoint over mutation histories on a live Bits (engine H) against a (size,value) model',
-   text='Every operator on every vector / ordered pair up to width 7 (thorough 8), every index/slice/list read and write on widths <=5 (6) incl. assigning a vector to a permutation of itself; every result is then overwritten through the public mutators and the operation re-evaluated (results are independent objects); all mutation histories on one live vector to the fixpoint; word-boundary widths to 2048; every augmented spelling (+= ... >>=) leaves other references to the left operand unchanged.',
+   text='Every operator on every vector / ordered pair up to width 7 (thorough 8), every index/slice/list read and write on widths <=5 (6) incl. assigning a vector to a permutation of itself; every result is then overwritten through the public mutators and the operation re-evaluated (results are independent objects); all mutation histories on one live vector to the fixpoint; index lists with negative positions, the list object unchanged; word-boundary widths to 2048; every augmented spelling (+= ... >>=) leaves other references to the left operand unchanged.',
    note='Trusted: the integer model in mc/checks/c08.py. Out-of-range integer indices are not judged.'),
  'C09': dict(sec='2/C09, 8', tech='bounded exhaustive enumeration of scheme x block size x length residue x bit length (engine P), complete malformed-padding domains for small blocks (engine D), explicit-state BFS over iterblocks histories and interleaved pad objects (engine H) against an integer padding specification',
    text='8 schemes x block sizes 8..1024 x every residue class over 0..3, 5, 17 (small blocks 33, 257) blocks x every L mod 8; blocks and counters read after each block, remove(); PKCS#7/X9.23 remove on complete small-block domains; inputs shorter than the pad they announce; all histories (continuations, final, refusals, calls after the pad) to depth 3/4; every ordered pair of 12 pad configurations alive together.',
    note='Trusted: mc/refs/padspec.py. Not judged: empty message under none/zero padding, bit lengths on byte-granular schemes, padcnt of length-strengthening schemes.'),
  'C10': dict(sec='2/C10, 8', tech='explicit-state BFS over call histories on real objects (engine H), every ordered pair of 77 configurations each in its own process, and long runs of distinct calls: per object kind one-shot, per-call-option, raising, perturbation and sibling-instance events; states deduplicated by the canonical form of object + sibling + changed library globals; oracle = the same event in a forked child that starts from the import-time state',
-   text='53 object kinds incl. module-level singletons and siblings that differ in exactly one constructor aspect (key zero-extended, schema/version, other size); all histories of <=3 (thorough 5) calls; every judged call - also on the sibling - must return exactly what it returns in a pristine process; failing histories are minimised and classified by (kind, judged event, culprit set); 4692 (A used first, then B) pairs; 20 kinds answering 1100 (9000) distinct calls and then the first ones again.',
+   text='53 object kinds incl. module-level singletons and siblings that differ in exactly one constructor aspect (key zero-extended, schema/version, other size); all histories of <=3 (thorough 5) calls; every judged call - also on the sibling - must return exactly what it returns in a pristine process; failing histories are minimised and classified by (kind, judged event, culprit set); 4692 (A used first, then B) pairs; 20 kinds answering 1100 (9000) distinct calls and then the first ones again; deep copies of every kind; byte strings as bytes / bytearray / memoryview / list through 24 kinds and constructor arguments as bytearray / memoryview.',
    note='Trusted: the harness only (differential). Module-level state is explored, not judged (harmless caches raise no alarm). HMAC.setkey / RC4 stream state are C13 / C06.'),
  'C11': dict(sec='2/C11, 8', tech='bounded exhaustive enumeration of bit/byte lengths, salts, containers and the full product of a BLAKE2 parameter alphabet (engine P); preset counters at every power of two and salted streaming on live objects (engine H); reference BLAKE with derived constants, hashlib / RFC 7693 compression for BLAKE2',
    text='BLAKE-224..512: every bit length 0..2B+cs+18, byte lengths to 4 blocks and 5..65 blocks, 6 salts x 3 containers, second calls on used objects, counters preset below every 2^k (k<2w), salted block-wise streaming; BLAKE2s/2b: every byte length 0..4 blocks+1 and to 257 blocks, every outlen, salt/personalization, full product of a 4x3x3x3x3x3 tree alphabet, parameter calls followed by default calls on one object, byte counter preset below every 2^k; 22 other configurations used first in a fresh process x 11 BLAKE / BLAKE2 calls.',
@@ -41,16 +41,16 @@ CHECKS = {
    text='Skein-256/512/1024: every bit length 0..2Nb+9 (quick: 256 only) with/without explicit bitlen, longer containers, 5..65-block messages, second calls on used objects; every output length multiple of 8 to 4Nb and one of 257 blocks; 5 key classes x 16 subsets of prs/PK/kdf/nonce; all 27 tree shapes x 8 sizes; messages whose leaf equals the chaining values of its neighbours (level confusion); UBI started below every 2^k, k=8..95.',
    note='Trusted: mc/refs/skein.py (16 spec vectors per run). Tree hashing with a bit length not exercised.'),
  'C13': dict(sec='2/C13, 8', tech='bounded exhaustive enumeration of hash x key length 0..3 blocks x message (engine P) + explicit-state BFS over setkey / MAC / caller-owned key buffer / foreign use of the shared hash object histories (engine H) against Python hmac / RFC 2104 over reference hashes',
-   text='17 hashes (every class with a block size: + SHA-0, BLAKE2s/2b, MD6) x every key length 0..3 blocks (quick 17 boundary lengths) x ramp/random/constant (00, ff, 36, 5c) keys x 4-5 messages; all histories to depth 3/4 of setkey with 5 key classes, setkey with one mutable buffer overwritten in place, overwriting that buffer without setkey, direct use of the hash object by the caller (one-shot, salted / bit length, unfinished update), and MACs.',
+   text='17 hashes (every class with a block size: + SHA-0, BLAKE2s/2b, MD6) x every key length 0..3 blocks (quick 17 boundary lengths) x ramp/random/constant (00, ff, 36, 5c) keys x 4-5 messages; all histories to depth 3/4 of setkey with 5 key classes, setkey with one mutable buffer overwritten in place, overwriting that buffer without setkey, direct use of the hash object by the caller (one-shot, salted / bit length, unfinished update), and MACs; message objects that define __bytes__.',
    note='Trusted: Python hmac/hashlib, mc/refs/mdsha.py, mc/refs/blake.py.'),
  'C14': dict(sec='2/C14, 8', tech='explicit-state BFS over all update histories (compositions into block-aligned pieces incl. empty pieces, then a closing piece) on real hash objects with confluence and reference-digest oracles (engine H); complete cut positions for Nilsimsa (engine D)',
-   text='16 hashes x messages of 0..3/4, 6, 9 (17) blocks + 5 tail classes: every history feed(0..3 blocks)* close; state after each piece equals a fresh object fed the prefix at once, counter equals bits fed, closing digest equals the reference; one 257-block piece per hash; messages of exactly 2^16 (thorough 2^20, 2^21) bytes one-shot vs two pieces vs hashlib; Nilsimsa: every 1-/2-cut of messages to 12/16 bytes, cuts of 35..100-byte and 64 KiB+ streams with accumulator-level comparison.',
+   text='16 hashes x messages of 0..3/4, 6, 9 (17) blocks + 5 tail classes: every history feed(0..3 blocks)* close; state after each piece equals a fresh object fed the prefix at once, counter equals bits fed, closing digest equals the reference; one 257-block piece per hash; messages of exactly 2^16 (thorough 2^20, 2^21) bytes one-shot vs two pieces vs hashlib; streams forked with copy.deepcopy; Nilsimsa: every 1-/2-cut of messages to 12/16 bytes, cuts of 35..100-byte and 64 KiB+ streams with accumulator-level comparison.',
    note='Trusted: hashlib / reference hashes. Known finding (recorded): BLAKE2 closing with an empty final piece after whole blocks.'),
  'C15': dict(sec='2/C15, 8', tech='complete enumeration of all byte strings up to 2 bytes and all width-8 polynomials (engine D); bounded enumeration of widths, lengths, positions and crafted targets (engine P) and explicit-state BFS over histories of the crc module (engine H) against zlib and bit-by-bit division',
    text='crc32 on every byte string of length <=2 and 6 patterns at every length to 64/128; table CRC on every width-8 polynomial and 4-7 polynomials of every width 8..64, the same polynomial value at several widths in one process; fixing functions on every position with 38 targets and targets crafted so that the fixing window is 00000000 / ffffffff / ...; backward computation at every position; all histories to depth 3/4 of table generation for 4 polynomials, generic CRCs and the CRC-32 helpers on one loaded module.',
    note='Trusted: zlib.crc32 and a 6-line bitwise reference.'),
  'C16': dict(sec='2/C16, 8', tech='complete enumeration of all vector pairs over Z/2^k for small k and dimension (engine D) + BFS to the fixpoint over assignment + operator histories with every attribute of the live objects in the state (engine H) against a list-of-ints model',
-   text='Every ordered pair over Z/2, Z/4, Z/8 up to dimension 5/3/2 (thorough 6/4/3) through + - ^ & | //, re-evaluated after padding coefficients and results were overwritten in place; neg, shifts, every index/slice/list read and write, copies with dim, values shorter than the selection (value unchanged), a Bits scalar through every selector vs the same integer, the target itself as value vs an equal copy, SubPoly/Poly operand classes, augmented spellings; assignments (negative indices too) interleaved with operators on one live vector; the integer ring; split/pack on 5-8 element sizes.',
+   text='Every ordered pair over Z/2, Z/4, Z/8 up to dimension 5/3/2 (thorough 6/4/3) through + - ^ & | //, re-evaluated after padding coefficients and results were overwritten in place; neg, shifts, every index/slice/list/tuple/range read and write, copies with dim, values shorter than the selection (value unchanged), a Bits scalar through every selector vs the same integer, the target itself as value vs an equal copy, SubPoly/Poly operand classes, augmented spellings; assignments (negative indices too) interleaved with operators on one live vector; the integer ring; split/pack on 5-8 element sizes.',
    note='Trusted: Python list arithmetic in mc/checks/c16.py. Out-of-range slices / pack big-endian not judged.'),
  'C17': dict(sec='2/C17, 8', tech='bounded exhaustive enumeration of digest size x mode x key x message shape x bit length x round count (engine P) against an independent MD6 reference',
    text='Every d in 1..512 (quick every 5th), L in {0,1,2,3,64} x 5 key lengths x 27 message lengths (1..65 leaves, every 512/384 boundary), every L\' mod 8 at 1-3 levels, default rounds for 5-11 digest sizes keyed / unkeyed / all-zero keys, explicit rounds 1..4095 (23-27 values incl. 167..170), second calls on used objects, the rounds attribute changed between calls, messages whose leaf equals the four chaining values of its neighbours (level confusion). Shapes at 12 rounds where every input word reaches the digest (self-tested).',
@@ -59,7 +59,7 @@ CHECKS = {
    text='37 (thorough 106) keys incl. parity bits, weak/semi-weak, parity-only variants: structure of all tables, key independence, evaluation on the single-bit block family; for 2 keys x every round 1..16 blocks computed with the reference so that the internal (L,R) state is zero / all-ones / half-zero / single-bit; tables regenerated from one Bits key object overwritten in place; the round tables of one key requested in every order of two (three) rounds on a freshly loaded module.',
    note='Trusted: reference DES bound to OpenSSL.'),
  'C19': dict(sec='2/C19, 8', tech='bounded exhaustive enumeration of all 30 TLSH configurations x length x content x force, all digest pairs, complete component domains on live objects with injected state (engines P/D) against paper/reference models',
-   text='30 configurations x 12/16 lengths x 7 contents x force (None vs exact-length digest equal to the model, also on used objects); from_hash on produced / single-bit digests; all ordered digest pairs in 12 call forms (bytes, re-loaded, finalized-only and called objects) vs the model score; the length byte for every data length to 2^19 (2^23); the quartile-ratio byte for every pair q<=q3<=200 (400) with the bucket array set by hand; Nilsimsa every target and length 0..39, Hamming distances.',
+   text='30 configurations x 12/16 lengths x 7 contents x force (None vs exact-length digest equal to the model, also on used objects); from_hash on produced / single-bit digests; all ordered digest pairs in 12 call forms (bytes, re-loaded, finalized-only and called objects) vs the model score; the length byte for every data length to 2^19 (2^23); the quartile-ratio byte for every pair q<=q3<=200 (400) with the bucket array set by hand; Nilsimsa every target and length 0..39 (bytes and str), Hamming distances.',
    note='Trusted: mc/refs/lsh.py (official vectors per run). 48 buckets with 18..24 non-empty buckets judged for type only.'),
  'C20': dict(sec='2/C20, 8', tech='complete enumeration of all small lists / multisets / item lists (engine D) against itertools and brute force; explicit-state BFS over call histories incl. caller-side mutation of arguments and results, and over two caller-held combink enumerations (engine H)',
    text='permutk on every list over {0,1,2} to length 5/6 and range(n) to 6/8; nextperm on every permutation and multiset arrangement; combink n<=6/7; exactsum/dynprog on every item list to length 5/6 over weights {1,2,3,5} x every target by brute force; all histories to depth 3/4 of 8 calls, calls on one caller-owned list overwritten in place, and scribbling on the last result, compared with brute force and with a freshly loaded module in a forked child; instances scaled by 22000 (targets beyond 2^16); zero-weight items; exactsum with a result list owned by the caller; two combink enumerations started / advanced / drained / closed / dropped in every order to depth 4/5.',
